@@ -21,6 +21,7 @@
 import TT.Model.Program
 import TT.Props.C12
 import TT.Props.C03
+import TT.Lemmas.TunnelInv
 
 namespace TT
 
@@ -103,10 +104,156 @@ def tunnelResults (arena : List CallSite) (sites : List CallSite) (ops : List PO
 
 def sitesDistinct (sites : List CallSite) : Prop := ∀ s ∈ sites, s.fields.Nodup
 
+/-! ### Proof of the log simulation (helper lemmas; see also TT/Lemmas/Tunnel*.lean) -/
+
+theorem tn_visit_toRaw (r : Raw) : (visit r).toRaw = widenRaw r := by
+  cases r <;> rfl
+
+theorem tn_tvals (f : Fields) : tvals f = widenVals (presentRaw f) := by
+  unfold tvals widenVals
+  apply List.map_congr_left
+  intro kv _
+  rw [tn_visit_toRaw]
+
+theorem tn_tpar_root (p : SParent) : tpar p = (hparentOf p).rootAsCtx := by
+  cases p <;> rfl
+
+theorem tn_indexOf_mem (d : CallSite) (l : List CallSite) (h : d ∈ l) : ∃ i, indexOf? d l = some i := by
+  induction l with
+  | nil => cases h
+  | cons x xs ih =>
+    simp only [indexOf?]
+    by_cases hx : x = d
+    · exact ⟨0, by rw [if_pos hx]⟩
+    · rw [if_neg hx]
+      have : d ∈ xs := by
+        rcases List.mem_cons.1 h with h | h
+        · exact absurd h.symm hx
+        · exact h
+      obtain ⟨i, hi⟩ := ih this
+      exact ⟨i + 1, by rw [hi]; rfl⟩
+
+theorem tn_canon (sites : List CallSite) (w' W : World) (k idx : Nat) (hk : k < sites.length)
+    (hpre : w'.arena <+: W.arena) (hlt : idx < w'.arena.length)
+    (hsite : siteOf w' idx = sites.getD k default) : canonIdx W sites idx = canonK sites k := by
+  obtain ⟨ext, hext⟩ := hpre
+  have hW : siteOf W idx = sites.getD k default := by
+    rw [← hsite]
+    unfold siteOf
+    rw [← hext, List.getD_eq_getElem?_getD, List.getD_eq_getElem?_getD,
+      List.getElem?_append_left hlt]
+  have hmem : sites.getD k default ∈ sites := by
+    rw [List.getD_eq_getElem?_getD, List.getElem?_eq_getElem hk]
+    exact List.getElem_mem hk
+  obtain ⟨i, hi⟩ := tn_indexOf_mem _ _ hmem
+  unfold canonIdx canonK
+  rw [hW, hi]
+  rfl
+
+/-- The native log, as the right-hand side of `C01_log_simulation` sees it, per subscriber call. -/
+def natF (sites : List CallSite) (cs : List SubCall) : List HostCall :=
+  ((nonReg (cs.map callToHost)).map (·.mapMeta (canonK sites))).map fun c => c.widen.rootAsCtx
+
+theorem tn_nonReg_append (a b : List HostCall) : nonReg (a ++ b) = nonReg a ++ nonReg b := by
+  unfold nonReg
+  rw [List.filter_append]
+
+theorem tn_natF_cons (sites : List CallSite) (c : SubCall) (cs : List SubCall) :
+    natF sites (c :: cs) = natF sites [c] ++ natF sites cs := by
+  show natF sites ([c] ++ cs) = _
+  unfold natF
+  rw [List.map_append, tn_nonReg_append, List.map_append, List.map_append]
+
+theorem tn_out_eq (sites : List CallSite) (w' W : World) (g : GSt) (counts : AMap Nat Nat)
+    (c : SubCall) (new : List HostCall) (hshape : Shape sites w' counts c new)
+    (hg : gok sites g c) (hpre : w'.arena <+: W.arena) (rest : List HostCall) :
+    (nonReg new).map (·.mapMeta (canonIdx W sites)) ++ rcNormalizeFrom (cstep counts c) rest
+      = rcNormalizeFrom counts (natF sites [c] ++ rest) := by
+  cases c with
+  | register k site =>
+    rcases hshape with rfl | ⟨i, rfl⟩ <;> rfl
+  | newSpan id k p f =>
+    obtain ⟨idx, hlt, hsite, rfl⟩ := hshape
+    have hcan := tn_canon sites w' W k idx hg.2.1 hpre hlt hsite
+    simp [natF, nonReg, callToHost, HostCall.isRegister, HostCall.mapMeta, HostCall.widen,
+      HostCall.rootAsCtx, rcNormalizeFrom, cstep, hcan, tn_tvals, tn_tpar_root]
+  | record id f =>
+    subst hshape
+    simp [natF, nonReg, callToHost, HostCall.isRegister, HostCall.mapMeta, HostCall.widen,
+      HostCall.rootAsCtx, rcNormalizeFrom, cstep, tn_tvals]
+  | follows a b =>
+    subst hshape
+    simp [natF, nonReg, callToHost, HostCall.isRegister, HostCall.mapMeta, HostCall.widen,
+      HostCall.rootAsCtx, rcNormalizeFrom, cstep]
+  | enter id =>
+    subst hshape
+    simp [natF, nonReg, callToHost, HostCall.isRegister, HostCall.mapMeta, HostCall.widen,
+      HostCall.rootAsCtx, rcNormalizeFrom, cstep]
+  | exit id =>
+    subst hshape
+    simp [natF, nonReg, callToHost, HostCall.isRegister, HostCall.mapMeta, HostCall.widen,
+      HostCall.rootAsCtx, rcNormalizeFrom, cstep]
+  | clone id =>
+    subst hshape
+    simp [natF, nonReg, callToHost, HostCall.isRegister, HostCall.mapMeta, HostCall.widen,
+      HostCall.rootAsCtx, rcNormalizeFrom, cstep]
+  | tryClose id =>
+    simp only [Shape] at hshape
+    subst hshape
+    by_cases h1 : (AMap.get counts id).getD 0 - 1 = 0
+    · simp [natF, nonReg, callToHost, HostCall.isRegister, HostCall.mapMeta, HostCall.widen,
+        HostCall.rootAsCtx, rcNormalizeFrom, cstep, h1]
+    · simp [natF, nonReg, callToHost, HostCall.isRegister, HostCall.mapMeta, HostCall.widen,
+        HostCall.rootAsCtx, rcNormalizeFrom, cstep, h1]
+  | event k p f =>
+    obtain ⟨idx, hlt, hsite, rfl⟩ := hshape
+    have hcan := tn_canon sites w' W k idx hg.1 hpre hlt hsite
+    simp [natF, nonReg, callToHost, HostCall.isRegister, HostCall.mapMeta, HostCall.widen,
+      HostCall.rootAsCtx, rcNormalizeFrom, cstep, hcan, tn_tvals, tn_tpar_root]
+
+def recvAll (σ : Sigma) (cs : List SubCall) : Sigma :=
+  (cs.map callToEvent).foldl (fun σ e => (tryReceive σ e).state) σ
+
+theorem tn_evOK_eq (sp : Spec) (e : Event) :
+    (match e with | .newSpan id _ _ _ => !sp.alive.contains id | _ => true) = evOK sp e := by
+  cases e <;> rfl
+
+theorem tn_main (sites : List CallSite) (cs : List SubCall) :
+    ∀ (σ : Sigma) (sp : Spec) (g : GSt) (counts : AMap Nat Nat), RInv σ sp g →
+      SInv sites sp g counts → allValidEvents sp (cs.map callToEvent) = true →
+      noReannounceEvents sp (cs.map callToEvent) = true → goodCalls sites g cs →
+      σ.w.arena <+: (recvAll σ cs).w.arena ∧
+      ∃ out, (recvAll σ cs).w.host.log = out.reverse ++ σ.w.host.log ∧
+        ∀ W : World, (recvAll σ cs).w.arena <+: W.arena →
+          (nonReg out).map (·.mapMeta (canonIdx W sites)) = rcNormalizeFrom counts (natF sites cs) := by
+  induction cs with
+  | nil =>
+    intro σ sp g counts _ _ _ _ _
+    exact ⟨List.prefix_refl _, [], rfl, fun _ _ => rfl⟩
+  | cons c cs ih =>
+    intro σ sp g counts hr hs hv hn hg
+    simp only [List.map_cons, allValidEvents, noReannounceEvents, Bool.and_eq_true] at hv hn
+    obtain ⟨σ', new, ht, hlog, hpre, hr', hshape⟩ :=
+      tn_step sites σ sp g counts c hr hs (List.isEmpty_iff.1 hv.1) hn.1 hg.1
+    have hs' := tn_sinv_step sites sp g counts c hs (List.isEmpty_iff.1 hv.1) hg.1
+    have hrun : recvAll σ (c :: cs) = recvAll σ' cs := by
+      simp only [recvAll, List.map_cons, List.foldl_cons, ht, Res.state]
+    rw [hrun]
+    obtain ⟨hpre2, out, hlog2, hout⟩ := ih σ' _ _ _ hr' hs' hv.2 hn.2 hg.2
+    refine ⟨hpre.trans hpre2, new ++ out, ?_, ?_⟩
+    · rw [hlog2, hlog]; simp
+    · intro W hW
+      rw [tn_nonReg_append, List.map_append, hout W hW, tn_natF_cons]
+      exact tn_out_eq sites σ'.w W g counts c new hshape hg.1 (hpre2.trans hW) _
+
 /-- Every event of the stream of a well-formed program is accepted. -/
 theorem C01_accepts (arena sites : List CallSite) (ops : List POp) (hwf : wfProg sites ops = true)
     (hb : spansCreated ops < 2^32 - 1) : ∀ r ∈ tunnelResults arena sites ops, r = none := by
-  sorry
+  obtain ⟨hv, hr⟩ := C12_stream_valid sites ops hwf hb
+  unfold tunnelResults
+  apply C03_accepts
+  · rw [tn_noReannounce_ev _ _ hv]; exact hr
+  · rw [tn_allValid_ev]; exact hv
 
 /-- Call for call, the host receives through the tunnel what it would have received natively:
     values widened, clones/drops folded into the close at count zero, explicit roots arriving as
@@ -115,7 +262,26 @@ theorem C01_log_simulation (arena sites : List CallSite) (ops : List POp) (hwf :
     (hs : sitesDistinct sites) (hb : spansCreated ops < 2^32 - 1) :
     tunnelLog arena sites ops
       = rcNormalizeFrom [] ((nativeLog sites ops).map fun c => c.widen.rootAsCtx) := by
-  sorry
+  have hcs := C12_one_event_per_call sites ops hb
+  obtain ⟨hv, hn⟩ := C12_stream_valid sites ops hwf hb
+  rw [hcs] at hv hn
+  have hgood := tn_callLog_good sites hs ops hwf
+  have h0r : RInv { r := {}, w := { arena, host := {} } } {} {} :=
+    ⟨(Inv.init { arena, host := {} }).1, fun id h => by simp [AMap.contains, AMap.get] at h, rfl⟩
+  have h0s : SInv sites {} {} [] :=
+    ⟨fun k d h => by simp [AMap.get] at h, fun id => rfl, fun id d h => by simp [AMap.get] at h⟩
+  obtain ⟨_, out, hlog, hout⟩ := tn_main sites (callLog sites ops) _ _ _ _ h0r h0s hv hn hgood
+  have hrun : tunnelledRun arena sites ops
+      = recvAll { r := {}, w := { arena, host := {} } } (callLog sites ops) := by
+    unfold tunnelledRun recvAll
+    rw [hcs]
+  have hnat : (nativeLog sites ops).map (fun c => c.widen.rootAsCtx) = natF sites (callLog sites ops) := by
+    unfold nativeLog natF
+    rw [tn_native_log]
+  rw [hnat, ← hout _ (List.prefix_refl _)]
+  unfold tunnelLog
+  simp only [hrun, hlog]
+  simp
 
 /-- The full property: same trace. -/
 def C01_full (arena sites : List CallSite) (ops : List POp) : Prop :=
@@ -131,10 +297,85 @@ def rootIdleFrom (stack : List (Nat × Bool)) : List HostCall → Bool
   | .exit h :: cs => rootIdleFrom (stackPop stack h) cs
   | _ :: cs => rootIdleFrom stack cs
 
+theorem tn_trace_rootAsCtx (xs : List HostCall) :
+    ∀ (stack : List (Nat × Bool)) (counts : AMap Nat Nat), rootIdleFrom stack xs = true →
+      traceFrom stack (rcNormalizeFrom counts (xs.map fun c => c.widen.rootAsCtx))
+        = traceFrom stack (rcNormalizeFrom counts (xs.map (·.widen))) := by
+  induction xs with
+  | nil => intro _ _ _; rfl
+  | cons x xs ih =>
+    intro stack counts hi
+    simp only [List.map_cons]
+    generalize (xs.map fun c => c.widen.rootAsCtx) = A at ih ⊢
+    generalize (xs.map (·.widen)) = B at ih ⊢
+    cases x with
+    | newSpan h m p v =>
+      simp only [rootIdleFrom, Bool.and_eq_true] at hi
+      obtain ⟨hp, hi⟩ := hi
+      simp only [HostCall.widen, HostCall.rootAsCtx, rcNormalizeFrom, traceFrom,
+        ih _ _ hi]
+      congr 2
+      cases p with
+      | ctx => rfl
+      | explicit q => rfl
+      | root =>
+        have : stack = [] := by simpa using hp
+        subst this
+        rfl
+    | event m p v =>
+      simp only [rootIdleFrom, Bool.and_eq_true] at hi
+      obtain ⟨hp, hi⟩ := hi
+      simp only [HostCall.widen, HostCall.rootAsCtx, rcNormalizeFrom, traceFrom,
+        ih _ _ hi]
+      congr 2
+      cases p with
+      | ctx => rfl
+      | explicit q => rfl
+      | root =>
+        have : stack = [] := by simpa using hp
+        subst this
+        rfl
+    | tryClose h =>
+      simp only [rootIdleFrom] at hi
+      simp only [HostCall.widen, HostCall.rootAsCtx, rcNormalizeFrom]
+      split
+      · simp only [traceFrom, ih _ _ hi]
+      · exact ih _ _ hi
+    | clone h =>
+      simp only [rootIdleFrom] at hi
+      simp only [HostCall.widen, HostCall.rootAsCtx, rcNormalizeFrom]
+      exact ih _ _ hi
+    | register m =>
+      simp only [rootIdleFrom] at hi
+      simp only [HostCall.widen, HostCall.rootAsCtx, rcNormalizeFrom, traceFrom,
+        ih _ _ hi]
+    | record h v =>
+      simp only [rootIdleFrom] at hi
+      simp only [HostCall.widen, HostCall.rootAsCtx, rcNormalizeFrom, traceFrom,
+        ih _ _ hi]
+    | follows a b =>
+      simp only [rootIdleFrom] at hi
+      simp only [HostCall.widen, HostCall.rootAsCtx, rcNormalizeFrom, traceFrom,
+        ih _ _ hi]
+    | enter h =>
+      simp only [rootIdleFrom] at hi
+      simp only [HostCall.widen, HostCall.rootAsCtx, rcNormalizeFrom, traceFrom,
+        ih _ _ hi]
+    | exit h =>
+      simp only [rootIdleFrom] at hi
+      simp only [HostCall.widen, HostCall.rootAsCtx, rcNormalizeFrom, traceFrom,
+        ih _ _ hi]
+    | base h =>
+      simp only [rootIdleFrom] at hi
+      simp only [HostCall.widen, HostCall.rootAsCtx, rcNormalizeFrom, traceFrom,
+        ih _ _ hi]
+
 theorem C01_partial (arena sites : List CallSite) (ops : List POp) (hwf : wfProg sites ops = true)
     (hs : sitesDistinct sites) (hb : spansCreated ops < 2^32 - 1)
     (hidle : rootIdleFrom [] (nativeLog sites ops) = true) : C01_full arena sites ops := by
-  sorry
+  unfold C01_full
+  rw [C01_log_simulation arena sites ops hwf hs hb]
+  exact tn_trace_rootAsCtx (nativeLog sites ops) [] [] hidle
 
 /-- K1: span `a` entered, then a span created with an explicit root parent: natively a second
     root, through the tunnel a child of `a`. -/
